@@ -37,12 +37,13 @@ TECHNIQUE = 'conservation monitor (independent per-segment re-summation) over ge
 
 def plan(tier, seed):
     per = 400 if tier == 'quick' else 12000
-    return [{'seed': seed * 1000 + i, 'n': per} for i in range(16)]
+    return [{'seed': seed * 1000 + i, 'n': per} for i in range(16)] + \
+        [{'seed': seed * 1000 + 77, 'n': 0, 'huge': 70000 if tier == 'quick' else 200000}]
 
 
 def required(tier):
     from vlib.gridwork import KINDS
-    cl = [f'geom:{k}' for k in KINDS] + ['axes:alt+time', 'axes:', 'res:fine', 'res:medium',
+    cl = [f'geom:{k}' for k in KINDS] + ['trajectory:more-than-65536-points', 'axes:alt+time', 'axes:', 'res:fine', 'res:medium',
                                          'res:coarse', 'segment:zero-length',
                                          'segment:antimeridian', 'segment:many-crossings',
                                          'integrated:integer-typed']
@@ -66,12 +67,25 @@ def judge(c, rec, Mismatch):
     total_in = [float(np.sum(v)) for v in c.integ]
     total_out = [0.0] * c.n_integ
     total_hi = [0.0] * c.n_integ
+    total_slack = [0.0] * c.n_integ
     for s in range(n_seg):
         pcs = c.pieces.get(s, [])
         order, shares, poly_len, seg_len = gw.sample_segment(
             c.lats[s], c.lons[s], c.lats[s + 1], c.lons[s + 1], c.lat_g, c.lon_g, c.M)
         zero = seg_len == 0.0
         rho_star = 1.0 if zero else poly_len / seg_len
+        # coordinates are resolved to about 3e-9 m (one ulp of a longitude in radians): for
+        # segments shorter than a centimetre the straight line IS the geodesic and every
+        # measured length carries that quantisation noise
+        qtol = 0.0
+        if 0.0 < seg_len < 1e-2:
+            rho_star = 1.0
+            qtol = min(0.45, 8 * 3e-9 / seg_len)
+        # a crossing that floating point cannot place better than a fraction eps of the
+        # segment (segment nearly parallel to the grid line it crosses) may be put just
+        # outside the segment: at most 2 eps of the length is then covered twice
+        ctol = 2 * gw.crossing_noise(c.lats[s], c.lons[s], c.lats[s + 1], c.lons[s + 1]) \
+            if len(pcs) >= 2 else 0.0
         is_cross = c.cross_seg == s
         det = {'segment': s, 'from_deg': [math.degrees(c.lats[s]), math.degrees(c.lons[s])],
                'to_deg': [math.degrees(c.lats[s + 1]), math.degrees(c.lons[s + 1])],
@@ -91,8 +105,9 @@ def judge(c, rec, Mismatch):
             got = math.fsum(vals)
             total_out[q] += got
             total_hi[q] += v * (rho_star + 1e-6)
-            lo = v * (1 - 1e-9)
-            hi = v * (rho_star + 1e-6)
+            total_slack[q] += v * (qtol + ctol)
+            lo = v * (1 - 1e-9 - qtol)
+            hi = v * (rho_star + 1e-6 + qtol + ctol)
             if zero:
                 lo = hi = v
             if not (lo - 1e-12 <= got <= hi + 1e-12):
@@ -106,13 +121,19 @@ def judge(c, rec, Mismatch):
                                       'ratio': got / v if v else None, **det})
         if zero:
             rec.cls('segment:zero-length')
+        if qtol and len(pcs) >= 2:
+            rec.cls('segment:shorter-than-1mm-across-a-grid-line' if seg_len < 1e-3
+                    else 'segment:shorter-than-1cm-across-a-grid-line')
+            if seg_len < 1e-8:
+                rec.cls('segment:shorter-than-10nm-across-a-grid-line')
         if is_cross:
             rec.cls('segment:antimeridian')
         if len(pcs) >= 8:
             rec.cls('segment:many-crossings')
     for q in range(c.n_integ):
         rec.ev()
-        if not (total_in[q] * (1 - 1e-9) - 1e-9 <= total_out[q] <= total_hi[q] + 1e-9):
+        if not (total_in[q] * (1 - 1e-9) - 1e-9 - total_slack[q] <= total_out[q]
+                <= total_hi[q] + 1e-9 + total_slack[q]):
             raise Mismatch('gridded total differs from the trajectory total',
                            {'variable': q, 'total_in': total_in[q], 'total_out': total_out[q],
                             **c.desc})
@@ -125,6 +146,17 @@ def judge(c, rec, Mismatch):
 def run_shard(spec, rec):
     from vlib import gridwork as gw
     from vlib.storeops import Mismatch
+
+    if 'huge' in spec:
+        probs, desc = gw.huge_track(random.Random(f"huge-{spec['seed']}"), spec['huge'])
+        rec.ev(spec['huge'])
+        rec.count('points_in_longest_trajectory', spec['huge'])
+        mine = [pr for pr in probs if any(w in pr[0] for w in ('less than', 'more than', 'total', 'lengths', 'raised', 'no piece'))]
+        for mech, det in mine[:1]:
+            rec.violation(mech, det, {'spec': dict(spec), 'k': 'huge'})
+        if not mine:
+            rec.cls('trajectory:more-than-65536-points')
+        return
 
     M = 400 if spec.get('tier') == 'quick' else 1500
     ks = [spec['only']] if 'only' in spec else range(spec['n'])
